@@ -481,7 +481,7 @@ class Exec:
                     for i, it in enumerate(split_top(args)):
                         p.pc.append(proj(v, "%s.%d" % (name, i)) == self.operand(p, it))
                 return v
-            if args is not None and re.match(r"^[A-Z]", name) and not prefix:
+            if args is not None and re.match(r"^[A-Z]", name) and (not prefix or not re.search(r"[A-Z]\w*(::<[^()]*?>)?::$", prefix)):
                 # tuple struct constructor `Name(a, b)`
                 v = fresh(name)
                 for i, it in enumerate(split_top(args)):
@@ -842,19 +842,22 @@ class Exec:
                         # (condition, value) or (condition, value, events the fork adds to the trace)
                         cond, val = item[0], item[1]
                         if self.feasible(p, cond):
-                            live.append((cond, val, list(item[2]) if len(item) > 2 else []))
+                            live.append((cond, val, list(item[2]) if len(item) > 2 and item[2] else [], item[3] if len(item) > 3 and item[3] else {}))
                     if not live:
                         raise Done("dead")
                     if ret is None:
                         raise Done("diverged")
-                    for cond, val, evs in live[1:]:
+                    for cond, val, evs, gh in live[1:]:
                         q = p.clone()
                         q.pc.append(cond)
                         q.trace = q.trace + evs
+                        q.ghost.update(gh)
                         self.assign(q, dst, val)
                         work.append((q, ret))
                     p.pc.append(live[0][0])
                     p.trace = p.trace + live[0][2]
+                    p.ghost = dict(p.ghost)
+                    p.ghost.update(live[0][3])
                     self.assign(p, dst, live[0][1])
                     bb = ret
                     continue
